@@ -147,7 +147,7 @@ theorem law_inverse (cv : EdC F) (hc : Complete cv) (x y : F) (h : OnCurve cv x 
 
 theorem law_comm (cv : EdC F) (x1 y1 x2 y2 : F) :
     addX cv.d x1 y1 x2 y2 = addX cv.d x2 y2 x1 y1 ∧ addY cv.a cv.d x1 y1 x2 y2 = addY cv.a cv.d x2 y2 x1 y1 :=
-  add_comm' cv.a cv.d x1 y1 x2 y2
+  add_comm_law cv.a cv.d x1 y1 x2 y2
 
 /-! ### scalar multiplications: every routine returns [k]P (k·P + m·Q), in any additive commutative group -/
 section Mul
